@@ -70,7 +70,7 @@ func runE(t tree, fsys ros.FS, outside0 string, steps []stepE, verbose bool) (si
 	t.buildInside()
 	basedir := filepath.Join(t.root, "base")
 	for i, s := range steps {
-		class, read := runB(fsys, caseB{Op: s.Op, P: s.P, Q: s.Q})
+		class, read := runB(fsys, caseB{Op: s.Op, P: s.P, Q: s.Q}, "")
 		if verbose {
 			fmt.Printf("step %d: %s(%q,%q) -> %s %q\n", i, s.Op, s.P, s.Q, class, ev.Clip(read, 60))
 		}
